@@ -79,7 +79,7 @@ func allChecksRaw() []*Check {
 				gj("C01.blank.n4", "VerifC01Blank", 4, "C01.blank.nil", "C01.blank.out", "C01.blank.end"),
 				gj("C01.bytes.n5", "VerifC01Bytes", 5, "C01.bytes.nil", "C01.bytes.out", "C01.bytes.end"),
 			},
-			Bounds: "forests of N item rows (quick N=6, thorough N=8): every well-formed depth sequence x every pattern of equal sibling names; names and the four branch strings are unconstrained strings of any length; both simple output routes; up to 2 blank rows at any position for N=3/4; byte level: forests of 4/5 rows with concrete names and the four branch strings as 0..2 arbitrary ASCII bytes each (strings of different lengths, code that measures or slices them). Outside: larger N, massive mode (C10), spellings other than the canonical one (L-parse, C15).",
+			Bounds: "forests of N item rows (quick N=6, thorough N=8): every well-formed depth sequence x every pattern of equal sibling names; names and the four branch strings are unconstrained strings of any length; both simple output routes; up to 2 blank rows at any position for N=3/4; byte level: forests of 4/5 rows with concrete names and the four branch strings as 0..2 arbitrary ASCII bytes each (strings of different lengths, code that measures or slices them). Outside: larger N, massive mode (C10), spellings other than the canonical one (L-parse, C15). Wide node (real parser): a root with 15..18 concrete children, one more row repeating a solver-chosen child's name or a new one, a grandchild below it, optionally a last new child; from Markdown (both routes) and programmatically (Add returns the existing node; text; walk count).",
 			Assume: append([]string{parseContract}, commonAssume...),
 		},
 		{
@@ -115,7 +115,7 @@ func allChecksRaw() []*Check {
 				gjf("C03.pairs2.n5", "VerifC03", 15, "C03.add", "C03.fail.samewrites", "C03.fail.err", "C03.fail.out", "C03.dryrun.nil", "C03.dryrun"),
 				gjf("C03.reject.n4", "VerifC03Reject", 4, "C03.reject.err", "C03.reject.nowrite", "C03.reject.nocallback", "C03.reject.nofs"),
 			},
-			Bounds: "programs of NewRoot + (N-1) Add calls (quick N=5, thorough N=6; N=7 ran clean once in 17 min) on solver-chosen parents with names that may coincide, optionally with a From-Root call between two Adds; operation pairs From-Root vs From-Markdown: text with 4 opaque branch strings, JSON/YAML/TOML records, callback walk facts, iterator walk (walks with 4 opaque branch strings as options); a writer that refuses write j and the dry-run report with 0..1 opaque extension (second job, N = 4 / 5); every deprecated alias next to its replacement; nil / non-root arguments on all 10 From-Root entry points. Byte level: programs of 5/6 nodes with concrete names and the four branch strings as 0..2 arbitrary ASCII bytes each (code that looks into the branch strings). mkdir/verify pairs are decided under C06/C08 (VerifC06Root, VerifC08 both families). Outside: names that are not single path elements (C07), massive mode (C10).",
+			Bounds: "programs of NewRoot + (N-1) Add calls (quick N=5, thorough N=6; N=7 ran clean once in 17 min) on solver-chosen parents with names that may coincide, optionally with a From-Root call between two Adds; operation pairs From-Root vs From-Markdown: text with 4 opaque branch strings, JSON/YAML/TOML records, callback walk facts, iterator walk (walks with 4 opaque branch strings as options); a writer that refuses write j and the dry-run report with 0..1 opaque extension (second job, N = 4 / 5); every deprecated alias next to its replacement; nil / non-root arguments on all 10 From-Root entry points. Byte level: programs of 5/6 nodes with concrete names and the four branch strings as 0..2 arbitrary ASCII bytes each (code that looks into the branch strings). mkdir/verify pairs are decided under C06/C08 (VerifC06Root, VerifC08 both families). Outside: names that are not single path elements (C07), massive mode (C10). Wide node: as C01's job (15..18 children, repeated name), programmatic and Markdown side.",
 			Assume: append([]string{parseContract, pathContract, fsModel, encStub}, commonAssume...),
 		},
 		{
@@ -146,7 +146,7 @@ func allChecksRaw() []*Check {
 				gjf("C05.walk.n7", "VerifC05", 7, "C05.name", "C05.branch", "C05.row", "C05.level", "C05.path", "C05.haschild", "C05.stop.err", "C05.stop.count", "C05.stop.nomore", "C05.all", "C05.nil"),
 				gjf("C05.iter.n7", "VerifC05Iter", 7, "C05.iter.row", "C05.iter.path", "C05.iter.level", "C05.iter.nomore", "C05.iter.stop.count", "C05.iter.stop.err", "C05.iter.all"),
 			},
-			Bounds: "forests of N rows (callback form from Markdown, 4 opaque branch strings) and programs of N nodes (From-Root callback, iterator and deprecated iterator forms), quick N=5, thorough N=7; callback failing / consumer breaking out at every visit index (symbolic) or never. Outside: massive mode (C10), names that are not single path elements.",
+			Bounds: "forests of N rows (callback form from Markdown, 4 opaque branch strings) and programs of N nodes (From-Root callback, iterator and deprecated iterator forms), quick N=5, thorough N=7; callback failing / consumer breaking out at every visit index (symbolic) or never. Outside: massive mode (C10), names that are not single path elements. Deep trees (real parser): a chain of 32..35 (thorough 30..70) levels below the root plus one child at the top, middle or bottom; text, callback walk from Markdown and From-Root, iterator walk.",
 			Assume: append([]string{parseContract, pathContract}, commonAssume...),
 		},
 		{
@@ -173,7 +173,7 @@ func allChecksRaw() []*Check {
 				gjf("C13.hist.n4.massivejson", "VerifC13", 204, "C13.add", "C13.fn", "C13.fresh", "C13.idem", "C13.nil", "C13.end"),
 				gjf("C13.hist.n4.emptynames", "VerifC13", 14, "C13.add", "C13.fn", "C13.idem", "C13.end"),
 			},
-			Bounds: "sequential histories of N steps (quick 4, thorough 5) plus a final operation on every live tree, over at most two live trees: Add on any node of any tree, creation of the second tree, an unrelated From-Markdown call, a From-Root operation (one kind per history: text, callback walk, iterator walk on an iterator made when the tree was made, JSON; in a job of their own the dry-run report and the dry run combined with an encode option) executed twice in a row, a text output in between whatever the history's kind is; every result also equals the result on a freshly built copy of the tree (C13.fresh); names are opaque single path elements, in a second job each name may also be the empty string (NewRoot(\"\")/Add(\"\") are legal). Concurrent use (VerifC13Conc): two goroutines run one library call each at the same time on inputs of their own -- 8 kinds each (From-Markdown text on both simple routes, walk, massive text, dry-run; From-Root text, custom-branch text and walk, each building its tree first), one arbitrary name byte each; real bufio.Scanner / strings.Reader / parser, a model of sync.Pool; write-yield schedules (and LIFO, 8 pseudo-random ones in the thorough tier): each result equals the call's result when run alone, and the happens-before detector finds no pair of unsynchronised conflicting accesses in library code (which does not depend on the schedule explored). Sequential From-Markdown histories (VerifC13Md): 2 (quick) / 3 (thorough) massive-mode calls one after the other, each on a document in a notation of its own (tabs / one blank / two blanks, list or # roots, bullet symbols): nil and the simple mode's blocks every time (pooled or otherwise kept pipeline state must not show). Outside: more than two concurrent calls, mkdir/verify as concurrent or history steps, longer histories.",
+			Bounds: "sequential histories of N steps (quick 4, thorough 5) plus a final operation on every live tree, over at most two live trees: Add on any node of any tree, creation of the second tree, an unrelated From-Markdown call, a From-Root operation (one kind per history: text, callback walk, iterator walk on an iterator made when the tree was made, JSON; in a job of their own the dry-run report and the dry run combined with an encode option) executed twice in a row, a text output in between whatever the history's kind is; every result also equals the result on a freshly built copy of the tree (C13.fresh); names are opaque single path elements, in a second job each name may also be the empty string (NewRoot(\"\")/Add(\"\") are legal). Concurrent use (VerifC13Conc): two goroutines run one library call each at the same time on inputs of their own -- 8 kinds each (From-Markdown text on both simple routes, walk, massive text, dry-run; From-Root text, custom-branch text and walk, each building its tree first), one arbitrary name byte each; real bufio.Scanner / strings.Reader / parser, a model of sync.Pool; write-yield schedules (and LIFO, 8 pseudo-random ones in the thorough tier): each result equals the call's result when run alone, and the happens-before detector finds no pair of unsynchronised conflicting accesses in library code (which does not depend on the schedule explored). Sequential From-Markdown histories (VerifC13Md): 2 (quick) / 3 (thorough) massive-mode calls one after the other, each on a document in a notation of its own (tabs / one blank / two blanks, list or # roots, bullet symbols): nil and the simple mode's blocks every time (pooled or otherwise kept pipeline state must not show). Outside: more than two concurrent calls, mkdir/verify as concurrent or history steps, longer histories. A history step may be a From-Markdown output into a refusing writer (histories of up to 4 steps); jobs of their own: dry-run kinds, JSON through the massive pipeline (3 / 4 steps); the wide-node job of C01.",
 			Assume: append([]string{parseContract, pathContract, encStub}, commonAssume...),
 		},
 		{
@@ -305,7 +305,7 @@ func allChecksRaw() []*Check {
 				gjf("C08.bytes.n3x1.full", "VerifC08", 113, "C08.readonly", "C08.iff/same", "C08.iff/differs", "C08.sound.missing", "C08.exact.missing", "C08.sound.extra", "C08.exact.extra", "C08.text"),
 				gjf("C08.mkdir.n4", "VerifC08Mkdir", 4, "C08.mkdir.made", "C08.mkdir.verifies", "C08.mkdir.readonly"),
 			},
-			Bounds: "forests of N=3 rows (distinct roots; From-Markdown forest or From-Root single tree), every downward-closed subset of node paths present, childless present nodes as directory or file (so a root may be a file), 0..1 (quick) / 0..2 (thorough) extra entries (directory or regular file, listed by the walk before or after the node's own children) at solver-chosen places beneath present directories, strict or not; the verdict, the two lists of the first differing root (set equality, through the error value and its public text) and read-only-ness. Mkdir-then-verify with 0..2 opaque extensions for N=3/4. Outside: N >= 4 for the state-space job (did not finish in 30 min), massive mode (C10). Byte level (real filepath code, no path contracts; added after seed s83): forests of 3 rows + 1 extra entry whose names are 1..2 bytes over the alphabet {'-', '.', '0', 'a'} (bytes on both sides of '/' in byte order), all but the last node present as directories, strict and non-strict, From-Markdown; the model lists every directory in the order of the names, as fs.WalkDir does, so that the order of a listing and the string order of full paths can disagree (quick: one two-byte name per three; thorough: every length combination).",
+			Bounds: "forests of N=3 rows (distinct roots; From-Markdown forest or From-Root single tree), every downward-closed subset of node paths present, childless present nodes as directory or file (so a root may be a file), 0..1 (quick) / 0..2 (thorough) extra entries (directory or regular file, listed by the walk before or after the node's own children) at solver-chosen places beneath present directories, strict or not; the verdict, the two lists of the first differing root (set equality, through the error value and its public text) and read-only-ness. Mkdir-then-verify with 0..2 opaque extensions for N=3/4. Outside: N >= 4 for the state-space job (did not finish in 30 min), massive mode (C10). Byte level (real filepath code, no path contracts; added after seed s83): forests of 3 rows + 1 extra entry whose names are 1..2 bytes over the alphabet {'-', '.', '0', 'a'} (bytes on both sides of '/' in byte order), all but the last node present as directories, strict and non-strict, From-Markdown; the model lists every directory in the order of the names, as fs.WalkDir does, so that the order of a listing and the string order of full paths can disagree (quick: one two-byte name per three; thorough: every length combination). Environment: target directory a regular file or absent, forests of 3 rows, From-Markdown simple and massive, From-Root, strict or not: non-nil, read-only.",
 			Assume: append([]string{parseContract, pathContract, fsModel, "fs.WalkDir modelled as: callback once per entry beneath the root, parents before children, in the order the harness lists them; SkipDir on a directory skips its subtree, on a file the rest of its directory; SkipAll ends the walk; root missing -> callback with fs.ErrNotExist, root a file -> callback with a non-ErrNotExist error"}, commonAssume...),
 		},
 		{
@@ -352,7 +352,7 @@ func allChecksRaw() []*Check {
 				{Name: "C10.units", Pkg: "gtree", Entry: "VerifC10Units", N: 0, FSModel: true, RealParse: true, Expect: []string{"C10.err.units/same-unit", "C10.err.units/mixed-units"}},
 				gjf("C10.exists", "VerifC10Exists", 0, "C10.exists.simple", "C10.exists.err", "C10.exists.fs/partial"),
 			},
-			Bounds: "documents of N rows (all operations: quick 2, thorough 3; text only: quick 3, thorough 4) from the family: roots as list items or # headings, children indented, one optional blank/whitespace-only row at any position (also leading), one optional malformed row (no bullet, empty text, nested two levels too deep); the bullet family (text output, quick 3 / thorough 4 rows): list-item roots, each root row with its own list symbol -, * or +; operations text, JSON or YAML records, dry-run report with an opaque extension, walk, mkdir with an opaque extension and verify on the file-system model; the real pipeline (splitter, 10+10+10 workers per stage, errgroup collectors) runs under a deterministic cooperative scheduler: policies FIFO, LIFO, each with first-ready or last-ready select case (quick: FIFO everywhere, LIFO/last-select for N=2); pseudo-random schedules rnd8 (thorough); for text output additionally the write-yield policies (the running goroutine goes to the back of the run queue after every Write on the output: a cooperative stand-in for preemption between printing goroutines, which is what makes a missing spreader lock visible). Byte level: two roots whose children are indented by i and j blanks, i,j in 1..4. Pre-existing root with two roots. Worker reuse: ten concrete three-level filler roots followed by a symbolic tail of 2 (quick) / 3 (thorough) rows, because blocks are handed to the ten workers of a stage in turn and per-worker state only matters from the 11th block on. NOT decided: equality under every schedule; data races.",
+			Bounds: "documents of N rows (all operations: quick 2, thorough 3; text only: quick 3, thorough 4) from the family: roots as list items or # headings, children indented, one optional blank/whitespace-only row at any position (also leading), one optional malformed row (no bullet, empty text, nested two levels too deep); the bullet family (text output, quick 3 / thorough 4 rows): list-item roots, each root row with its own list symbol -, * or +; operations text, JSON or YAML records, dry-run report with an opaque extension, walk, mkdir with an opaque extension and verify on the file-system model; the real pipeline (splitter, 10+10+10 workers per stage, errgroup collectors) runs under a deterministic cooperative scheduler: policies FIFO, LIFO, each with first-ready or last-ready select case (quick: FIFO everywhere, LIFO/last-select for N=2); pseudo-random schedules rnd8 (thorough); for text output additionally the write-yield policies (the running goroutine goes to the back of the run queue after every Write on the output: a cooperative stand-in for preemption between printing goroutines, which is what makes a missing spreader lock visible). Byte level: two roots whose children are indented by i and j blanks, i,j in 1..4. Pre-existing root with two roots. Worker reuse: ten concrete three-level filler roots followed by a symbolic tail of 2 (quick) / 3 (thorough) rows, because blocks are handed to the ten workers of a stage in turn and per-worker state only matters from the 11th block on. NOT decided: equality under every schedule; data races. Big blocks: two or three roots each with a child whose name has 5000 bytes (more than a bufio.Writer buffer), massive text, write-yield policy.",
 			Assume: append([]string{parseContract, pathContract, fsModel, encStub, "goroutines, channels, select, sync.WaitGroup/Mutex, context and errgroup are engine-native with Go semantics under a run-until-block scheduler (one interpreted goroutine runs at a time); every explored schedule is a legal Go schedule, the converse is not claimed"}, commonAssume...),
 		},
 		{
@@ -390,7 +390,7 @@ func allChecksRaw() []*Check {
 				{Name: "C11.fail.n3.rnd8", Pkg: "gtree", Entry: "VerifC11Fail", N: 3, FSModel: true, Sched: "rnd8", Expect: []string{"C11.returns/parse", "C11.noleak/parse"}},
 				{Name: "C11.root.n3.rnd8", Pkg: "gtree", Entry: "VerifC11Root", N: 3, FSModel: true, Sched: "rnd8", Expect: []string{"C11.root.returns", "C11.noleak/root"}},
 			},
-			Bounds: "N root blocks (quick 3, thorough 4) of which an arbitrary subset fails, one failure stage per run: parse error, name validation error, writer refusing every write, walk callback error, mkdir with pre-existing roots, failing reader; cancellation of the caller's context at synchronisation event k (k = 0 i.e. before the call, 1..20, then every 8th up to 172, or never) for text output, walk and JSON on N=2/3 roots, and for the From-Root massive routes; a blocked main goroutine with nothing runnable is a deadlock (call never returns); verifQuiesce runs everything runnable after the return and counts goroutines still alive. Policies FIFO (all), LIFO and last-ready select (thorough), pseudo-random schedules (rndK: run-queue pick and select rotation are a deterministic function of a seed in 0..K-1 that is a case-split symbol of the path; K=4 quick on the one-root cancel job, K=8 thorough). Many failing blocks (VerifC11Many): 11 or 12 root blocks that all fail in one stage (more than the ten workers a stage has), with or without a good block behind them, on text, walk, dry-run, mkdir, verify: returns, reports, leaves nothing behind. Long block (VerifC11Long): one root with 6 (quick) / 8-10 (thorough) children, or a heading with that many list rows -- a single block for the splitter -- under the read-yield policies (every row read is a scheduling point and a cancellation instant), cancellation at event 0..24: the call returns nil or the context's error, leaves nothing behind, and at most one more row is read after it has returned. Data-race clause: every job runs with the happens-before (vector-clock) detector over the interpreted execution (go, channels, select, Mutex, WaitGroup, errgroup, context, sync/atomic, sync.Pool as synchronisation edges; loads, stores, map accesses, append, copy of library code as accesses; harness memory is user memory except the io.Writer the library writes to), also on C10's whole operation family (VerifC10: text, JSON, dry-run, walk, mkdir, verify on documents with blank / malformed rows and # roots); a report is confirmed on a -race build of the native harness. NOT decided: arbitrary schedules; weak-memory effects; races on memory touched only by host-level stubs. (The unsynchronised Parser.isSharpRoot write named in the anchors is gone since the D7 repair: each block has its own parser.)",
+			Bounds: "N root blocks (quick 3, thorough 4) of which an arbitrary subset fails, one failure stage per run: parse error, name validation error, writer refusing every write, walk callback error, mkdir with pre-existing roots, failing reader; cancellation of the caller's context at synchronisation event k (k = 0 i.e. before the call, 1..20, then every 8th up to 172, or never) for text output, walk and JSON on N=2/3 roots, and for the From-Root massive routes; a blocked main goroutine with nothing runnable is a deadlock (call never returns); verifQuiesce runs everything runnable after the return and counts goroutines still alive. Policies FIFO (all), LIFO and last-ready select (thorough), pseudo-random schedules (rndK: run-queue pick and select rotation are a deterministic function of a seed in 0..K-1 that is a case-split symbol of the path; K=4 quick on the one-root cancel job, K=8 thorough). Many failing blocks (VerifC11Many): 11 or 12 root blocks that all fail in one stage (more than the ten workers a stage has), with or without a good block behind them, on text, walk, dry-run, mkdir, verify: returns, reports, leaves nothing behind. Long block (VerifC11Long): one root with 6 (quick) / 8-10 (thorough) children, or a heading with that many list rows -- a single block for the splitter -- under the read-yield policies (every row read is a scheduling point and a cancellation instant), cancellation at event 0..24: the call returns nil or the context's error, leaves nothing behind, and at most one more row is read after it has returned. Data-race clause: every job runs with the happens-before (vector-clock) detector over the interpreted execution (go, channels, select, Mutex, WaitGroup, errgroup, context, sync/atomic, sync.Pool as synchronisation edges; loads, stores, map accesses, append, copy of library code as accesses; harness memory is user memory except the io.Writer the library writes to), also on C10's whole operation family (VerifC10: text, JSON, dry-run, walk, mkdir, verify on documents with blank / malformed rows and # roots); a report is confirmed on a -race build of the native harness. NOT decided: arbitrary schedules; weak-memory effects; races on memory touched only by host-level stubs. (The unsynchronised Parser.isSharpRoot write named in the anchors is gone since the D7 repair: each block has its own parser.) Many blocks: 11..12 failing blocks (parse or validation stage) with or without a good tail; 12..14 good blocks on text, JSON, dry-run, walk, mkdir and verify.",
 			Assume: append([]string{parseContract, pathContract, fsModel, "engine-native goroutines/channels/select/sync/context/errgroup under a deterministic cooperative scheduler; every explored schedule is legal, not every legal schedule is explored"}, commonAssume...),
 		},
 		{
@@ -404,7 +404,7 @@ func allChecksRaw() []*Check {
 				{Name: "C16.main", Pkg: "main", Entry: "VerifC16Main", NoNative: true, Expect: []string{"C16.main.usage", "C16.main.success", "C16.main.strayargs"}},
 				{Name: "C16.template", Pkg: "main", Entry: "VerifC16Template", NoNative: true, Expect: []string{"C16.code.template.writefail", "C16.code.template.ok", "C16.wire.template", "C16.template.end"}},
 			},
-			Bounds: "all flag combinations of the three actions: --format as an arbitrary string, --massive, --massive-timeout as an arbitrary duration, --file as an arbitrary path (stdin for empty or '-'), --dry-run, 0..2 arbitrary --extension values, arbitrary --target-dir, --strict; os.Open succeeds or fails; the library call succeeds or fails; main() with App.Run returning nil or a non-ExitCoder error. --watch is excluded (ticker loop never returns). Outside: urfave/cli's own parsing of the command line, the real process on closed stdout//dev/full (library side: C14), 'template | output'.",
+			Bounds: "all flag combinations of the three actions: --format as an arbitrary string, --massive, --massive-timeout as an arbitrary duration, --file as an arbitrary path (stdin for empty or '-'), --dry-run, 0..2 arbitrary --extension values, arbitrary --target-dir, --strict; os.Open succeeds or fails; the library call succeeds or fails; main() with App.Run returning nil or a non-ExitCoder error. --watch is excluded (ticker loop never returns). Outside: urfave/cli's own parsing of the command line, the real process on closed stdout//dev/full (library side: C14), 'template | output'. Template action: --description on or off, every write of fmt.Print/Println to the standard output accepted or refused.",
 			Assume: []string{"urfave/cli: Context getters return symbolic flag values memoised by name; App.Run obeys the documented exit-coder contract (an ExitCoder error never comes back: HandleExitCoder exits with its code); cli.Exit / exitError are the real code", "gtree.OutputFromMarkdown / MkdirFromMarkdown / VerifyFromMarkdown are recording stubs; the options they receive are applied by the real gtree.newConfig and compared with what the flags denote", "os.Open, os.Exit, os.Stdin/Stdout/Stderr, color.Output are engine stubs"},
 		},
 		{
